@@ -471,6 +471,22 @@ static bool gen_c16(uint64_t seed, const std::string &tier, uint64_t i, Plan &p)
   if (pre == 0) p.ops.push(Json::obj().set("op", "settle").set("max_s", 1));
   else if (pre == 1) p.ops.push(Json::obj().set("op", "yield").set("n", (long long)r.range(1, 400)));
   int rounds = (int)r.range(1, 3); int rid = 0;
+  if (i % 6 == 4) {
+    // one channel saturated in the middle of a pass (more slow recipients than its concurrency) while a message on the other
+    // channel becomes due: the wake-up computation must still see the other channel
+    bool locfull = r.chance(0.7); conf.set(locfull ? "concurrencylocal" : "concurrencyremote", (int)r.range(1, 2)); p.knobs.set("conf", conf);
+    std::string busy = locfull ? "l" : "r", other = locfull ? "r" : "l";
+    { Json inj = Json::obj(); inj.set("op", "inject").set("id", "m" + std::to_string(++rid)).set("sender", "s@x.example").set("body_len", 10).set("body_seed", rid);
+      std::string a = other + std::to_string(rid) + (other == "l" ? "@l.example" : "@r.example"); Json rc = Json::arr(); rc.push(a); inj.set("rcpts", rc);
+      Json sc = Json::obj(); sc.set("op", "script").set("rcpt", a); Json at = Json::arr(); at.push(Json::obj().set("v", "Z").set("text", "later").set("lat", 0)); at.push(Json::obj().set("v", "K").set("text", "ok").set("lat", 0)); sc.set("attempts", at); p.ops.push(sc); p.ops.push(inj); }
+    p.ops.push(Json::obj().set("op", "settle").set("max_s", 1));
+    { Json inj = Json::obj(); inj.set("op", "inject").set("id", "m" + std::to_string(++rid)).set("sender", "s@x.example").set("body_len", 10).set("body_seed", rid); Json rc = Json::arr(); int nr = (int)r.range(3, 5);
+      for (int q = 0; q < nr; q++) { std::string a = busy + std::to_string(rid) + "x" + std::to_string(q) + (busy == "l" ? "@l.example" : "@r.example"); rc.push(a);
+        Json sc = Json::obj(); sc.set("op", "script").set("rcpt", a); Json at = Json::arr(); at.push(Json::obj().set("v", "K").set("text", "slow").set("lat", (long long)r.pick(std::vector<int64_t>{300, 700, 2000}))); sc.set("attempts", at); p.ops.push(sc); }
+      inj.set("rcpts", rc); p.ops.push(inj); }
+    if (r.chance(0.5)) { p.ops.push(Json::obj().set("op", "sleep").set("s", (long long)r.pick(std::vector<int64_t>{5, 50, 200}))); p.ops.push(Json::obj().set("op", "signal").set("to", "qmail-send").set("sig", "ALRM")); }
+    rounds = 0;
+  }
   if (i % 6 == 5) {
     // a slow client: one injector sits in the middle of its message for a long time while others come and go
     Json slow = Json::obj(); slow.set("op", "inject").set("id", "m" + std::to_string(++rid)).set("sender", "s@x.example").set("body_len", (long long)r.pick(std::vector<int64_t>{300, 3000, 20000})).set("body_seed", rid).set("feed_delay", (long long)r.pick(std::vector<int64_t>{20, 100, 400, 2000}));
